@@ -1096,7 +1096,12 @@ pub fn gen_members(
                             gen_type(rng, u, k, imports, fwd, 2)
                         },
                         name: member_name(rng, k, format!("C{mi}")),
-                        value: rng.pick(&["1", "\"s\"", "true", "1.5f", "{}"]).to_string(),
+                        value: if !imports.is_empty() && rng.pct(30) {
+                            // a reference to a constant of an imported item: Name.CONST
+                            format!("{}.{}", rng.pick(imports).rsplit('.').next().unwrap(), rng.pick(&["LOW", "SERIAL", "E0"]))
+                        } else {
+                            rng.pick(&["1", "\"s\"", "true", "1.5f", "{}", "{ 1, 2 }", "0x"]).to_string()
+                        },
                         doc: gen_doc_comment(rng, k),
                     });
                     continue;
@@ -1159,7 +1164,9 @@ pub fn gen_members(
                 members.push(Member::Field {
                     ty: gen_type(rng, u, k, imports, fwd, 0),
                     name: member_name(rng, k, format!("f{mi}")),
-                    value: if rng.pct(15) {
+                    value: if !imports.is_empty() && rng.pct(8) {
+                        Some(format!("{}.{}", rng.pick(imports).rsplit('.').next().unwrap(), rng.pick(&["LOW", "SERIAL", "E0"])))
+                    } else if rng.pct(15) {
                         Some(rng.pick(&["1", "\"v\"", "{}"]).to_string())
                     } else {
                         None
